@@ -236,8 +236,10 @@ def check_step(before, after, op, ans, ready_before):
         if len(new) != 1:
             return f"{op} answered ok but no new process is running ({sorted(before.P)} -> {sorted(after.P)})"
     named_hashes = {P[i]["hash"] for P in (before.P, after.P) for i in named if i in P and P[i]["hash"]}
+    import re
+    norm = lambda t: re.sub(r"(rand=r|latest=200:r)\d+:", r"\1*:", t)   # live chains: the round advances with time
     for p, x, y in zip(before.probes[1:], before.answers[1:], after.answers[1:]):
-        if x == y:
+        if x == y or norm(x) == norm(y):
             continue
         pf = p.split()
         # a probe that itself names a changed chain (by id or by one of its hashes) may of course change
@@ -260,11 +262,18 @@ def check_step(before, after, op, ans, ready_before):
 class Gen:
     def __init__(self, hashes):
         self.h = hashes
+        self._probes = {}
 
     def g(self, label):
         return f"{label}={self.h[label]}"
 
     def probes(self, ids=IDS):
+        key = tuple(ids)
+        if key not in self._probes:
+            self._probes[key] = self._mk_probes(ids)
+        return self._probes[key]
+
+    def _mk_probes(self, ids):
         hs = ["-"] + [self.h[l] for l in LABELS if l.split(".")[0] in ids] + ["aabb", DEFAULT_AS_BYTES, UNKNOWN32,
                                                                             self.h["foo.1"] + "00", self.h["foo.1"][:-2]]
         out = ["tabs", "req nil -"]
@@ -411,6 +420,7 @@ def malformed_histories(gen, rng, n):
         [f"disk foo fresh", "load foo -", f"disk bar fresh", "load bar -", f"dkg foo {b1}"],
         [f"disk foo grp:{f1}", "boot all", "boot all"],                                 # start-up load on a running daemon
         ["boot all"], ["boot single -"], ["load zed -", "boot all"],
+        ["boot single DEFAULT", "boot single default"], ["boot single zed", "load - -", "tabs"],   # NewFileStores creates the default folder
         ["stop - -", "stop nil -", "load nil -", "req", "http", "frobnicate 1 2", "disk foo what", "dkg foo nolabel"],
     ]
     hs += fixed
@@ -562,8 +572,19 @@ def new_stats():
 
 
 def explore(ctx, res):
+    """quick / thorough budget as asked; when a proof, a tie or a build broke (ctx['deep']) search with the quick budget
+    first and escalate to the thorough one only if that found no failing input"""
+    if ctx["deep"] and ctx["tier"] == "quick":
+        explore_once(ctx, res, "quick")
+        if any(f for _, f in res.violations) or res.known:
+            return
+        res.violations[:] = []
+        ctx = dict(ctx, rng=ctx["rng"].fork("deep"))
+    explore_once(ctx, res, "thorough" if ctx["deep"] else ctx["tier"])
+
+
+def explore_once(ctx, res, tier):
     rng = ctx["rng"]
-    tier = "thorough" if ctx["deep"] else ctx["tier"]
     args = [str(PERIOD), str(GENESIS)]
     H = group_hashes()
     gen = Gen(H)
@@ -613,7 +634,7 @@ def explore(ctx, res):
         add("malformed", [[l] for l in ls], oracle=False)
 
     # ---- run, sharded ------------------------------------------------------------------------------------
-    nshard = 12
+    nshard = 12 if tier == "quick" else 96      # results are judged shard by shard and dropped
     shards = [[] for _ in range(nshard)]
     for k, h in enumerate(hist):
         shards[k % nshard].append(h)
@@ -626,15 +647,13 @@ def explore(ctx, res):
         model = run_model(lines) if ctx["model_ok"] else None
         return impl, model
 
-    with ThreadPoolExecutor(max_workers=nshard) as ex:
-        results = list(ex.map(run_shard, shards))
-
     total = 0
     validated = 0
     nontriv = set()
     samples = []
     diverged = None
-    for sh, (impl, model) in zip(shards, results):
+    ex = ThreadPoolExecutor(max_workers=12)
+    for sh, (impl, model) in zip(shards, ex.map(run_shard, shards)):
         i = 0
         for tag, groups, lines, marks, oracle in sh:
             out = impl[i:i + len(lines)]
@@ -649,6 +668,7 @@ def explore(ctx, res):
                            "groups": small, "ops": [l for g in small for l in g], "oracle": why2, "observed": out[max(0, at - 2):at + 1]}
                     res.report(signature(why2), rep)
                     finish(res, total, nontriv, stats, samples, validated, t0, len(hist), n_exh)
+                    ex.shutdown(wait=False, cancel_futures=True)
                     return
             else:
                 for l, o in zip(lines, out):
@@ -675,6 +695,7 @@ def explore(ctx, res):
                                 "probe": lines[k], "impl": out[k][:300]})
             i += len(lines) + 1
 
+    ex.shutdown()
     # the assumption witness of c19_table_inv_counterexample, replayed on the real code
     w = [[f"disk foo grp:{gen.g('foo.1')}", "load foo -"], [f"dkg foo {gen.g('foo.2')}"]]
     lines, marks = simple_marks(gen, w)
